@@ -78,6 +78,14 @@ def tables(cs, rng, n):
     out.append(("backslash-letter", {"vars": ["a", "b"], "rows": [{"a": bs[i], "b": bs[-1 - i]} for i in range(len(bs))]}))
     for x in bs:
         out.append(("backslash-letter-1", {"vars": ["a"], "rows": [{"a": x}]}))
+    # typed cells whose lexical form is legal but not canonical (the reader recovers the term as written), an ill-typed one; blank node
+    # labels and variable names beyond the BMP
+    nc = [L("007", dt=XSD + "integer"), L("+5", dt=XSD + "integer"), L("1", dt=XSD + "boolean"), L("1e3", dt=XSD + "double"), L("1.50", dt=XSD + "decimal"), L("2020-01-01T00:00:00Z", dt=XSD + "dateTime"),
+          L("abc", dt=XSD + "integer"), L("0x1F", dt=XSD + "int"), L(" 5", dt=XSD + "integer"), L("1.0E0", dt=XSD + "float")]
+    out.append(("tsv-noncanonical", {"vars": ["a", "b"], "rows": [{"a": nc[i], "b": nc[-1 - i]} for i in range(len(nc))]}))
+    for x in nc:
+        out.append(("tsv-noncanonical-1", {"vars": ["a"], "rows": [{"a": x}]}))
+    out.append(("tsv-astral-names", {"vars": ["\U0001D4B3", "a\U00020BB7"], "rows": [{"\U0001D4B3": Bn("\U00020BB7x"), "a\U00020BB7": Bn("b\U0001D4B3")}, {"\U0001D4B3": Bn("b\U0001D4B3"), "a\U00020BB7": L("\U0001D4B3")}]}))
     out.append(("duplicate-rows", {"vars": ["a"], "rows": [{"a": cs[0]}, {"a": cs[0]}, {"a": cs[2]}, {"a": cs[2]}]}))
     out.append(("var-order", {"vars": ["z", "a", "m"], "rows": [{"z": cs[0], "a": cs[1], "m": cs[5]}]}))
     for i, c in enumerate(cs):
@@ -104,6 +112,10 @@ def run(out, tier, seed):
     out.extra["tables"] = len(tabs)
     jobs = []
     for ti, (name, t) in enumerate(tabs):
+        if name.startswith("tsv-"):
+            for k in range(4):      # several renderings: quoted and bare forms
+                jobs.append({"cfg": {"seed": seed + ti * 7 + k}, "events": [{"op": "tsv_read", "shape": name, "table": t}]})
+            continue
         for fmt in ("json", "xml"):
             jobs.append({"cfg": {}, "events": [{"op": "rt", "fmt": fmt, "shape": name, "table": t}]})
         if t["vars"]:
